@@ -556,11 +556,67 @@ theorem round_keeps_double (m : Int) (e : Nat) :
     unaryArith "$trunc" (.f m e) = mkF (if m ≥ 0 then floorDy m e else ceilDy m e) 0 := by
   refine ⟨?_, ?_, ?_⟩ <;> simp [unaryArith]
 
-/-- `$add` of a date and an integer moves the date by that many milliseconds -/
-theorem add_date_int (u n : Int) :
+/-- `$add` of a date and an integer moves the date by that many milliseconds (the result being a
+    date that Python's `datetime` holds: years 1 to 9999) -/
+theorem add_date_int (u n : Int) (hlo : dateMinUs ≤ u + n * 1000) (hhi : u + n * 1000 ≤ dateMaxUs) :
     naryArith "$add" [.date u none, .int n] = .ok (.date (u + n * 1000) none) := by
-  simp [naryArith, checkAdd, toPyNum, sumNums, PyNum.add, PyNum.check, datePlus, bind, Except.bind,
-    pure, Except.pure]
+  simp [naryArith, checkAdd, toPyNum, sumNums, PyNum.add, PyNum.check, datePlus, mkDate, hlo, hhi,
+    bind, Except.bind, pure, Except.pure]
+
+/-- beyond that range the model has no answer (the code raises OverflowError, the server has a
+    date) -/
+theorem add_date_int_out_of_range (u n : Int)
+    (h : u + n * 1000 < dateMinUs ∨ dateMaxUs < u + n * 1000) :
+    naryArith "$add" [.date u none, .int n] = unmodelled := by
+  have : (decide (dateMinUs ≤ u + n * 1000) && decide (u + n * 1000 ≤ dateMaxUs)) = false := by
+    rcases h with h | h
+    · have : ¬ dateMinUs ≤ u + n * 1000 := by omega
+      simp [this]
+    · have : ¬ u + n * 1000 ≤ dateMaxUs := by omega
+      simp [this]
+  simp [naryArith, checkAdd, toPyNum, sumNums, PyNum.add, PyNum.check, datePlus, mkDate, this,
+    bind, Except.bind, pure, Except.pure]
+
+/-- `$mod` of two integers stays exact beyond 2^53, where a double no longer holds every integer
+    (`math.fmod` would answer 0 for the first and 16 for the second) -/
+theorem mod_int_beyond_double :
+    binaryArith "$mod" (.int 9007199254740993) (.int 2) = .ok (.int 1) ∧
+    binaryArith "$mod" (.int 1541815603606036487) (.int 16) = .ok (.int 7) ∧
+    binaryArith "$mod" (.int (-9007199254740993)) (.int 2) = .ok (.int (-1)) := by
+  refine ⟨?_, ?_, ?_⟩ <;> (rw [mod_int _ _ (by decide)]; rfl)
+
+/-- "the model has no answer" / "the answer is the double m / 2^e", as decidable tests -/
+def noAnswer (r : R Val) : Bool := match r with | .error .unmodelled => true | _ => false
+def isDouble (r : R Val) (m : Int) (e : Nat) : Bool :=
+  match r with | .ok (.dbl m' e') => m' == m && e' == e | _ => false
+
+/-- an int that `float()` would round has no answer next to a float operand: `$add`, `$subtract`,
+    `$divide`, `$mod`, `$avg` of 2^53 + 1 (or 2^54 + 2) and a double are outside the model … -/
+theorem rounded_int_with_double_unmodelled :
+    noAnswer (naryArith "$add" [.int 9007199254740993, .dbl (-3) 0]) = true ∧
+    noAnswer (binaryArith "$subtract" (.int 9007199254740993) (.dbl 3 0)) = true ∧
+    noAnswer (binaryArith "$divide" (.int 18014398509481986) (.dbl 3 0)) = true ∧
+    noAnswer (binaryArith "$mod" (.int 9007199254740993) (.dbl 2 0)) = true ∧
+    noAnswer (groupingInExpr "$avg" [.int 6004799503160662, .int 6004799503160662,
+      .int 6004799503160662]) = true := by
+  decide +kernel
+
+/-- … while ints that are doubles (2^53, 2^60) mix with doubles as before, and two ints are
+    divided exactly -/
+theorem exact_int_with_double :
+    isDouble (naryArith "$add" [.int 9007199254740992, .dbl (-3) 0]) 9007199254740989 0 = true ∧
+    isDouble (binaryArith "$mod" (.int 1152921504606846976) (.dbl 3 0)) 1 0 = true ∧
+    isDouble (binaryArith "$divide" (.int 18014398509481986) (.int 3)) 6004799503160662 0 = true := by
+  decide +kernel
+
+/-- `{$mod: ["$a", 2]}` on a stored 2^53 + 1 is inside D (so `eval_eq_spec_partial` gives it the
+    exact remainder of the rules); `{$add: ["$a", -3.0]}` on it is not -/
+example :
+    exprInD (.doc [("$mod", .arr [.str "$a", .int 2])])
+      (.doc [("_id", .int 0), ("a", .int 9007199254740993)]) = true ∧
+    exprInD (.doc [("$add", .arr [.str "$a", .dbl (-3) 0])])
+      (.doc [("_id", .int 0), ("a", .int 9007199254740993)]) = false := by
+  decide +kernel
 
 /-- two dates are rejected -/
 theorem add_two_dates (u u' : Int) (r : List Val) :
